@@ -3,6 +3,10 @@ mixed *log = ({});
 mapping script = ([]);
 mapping handles = ([]);
 
+int shared;                     // 1: every string-named call_out of an object uses the same function name
+void set_shared(int s) { shared = s; }
+int query_shared() { return shared; }
+#define NM(id) ("/co/t"->query_shared() ? "cbs" : "cb" + (id))
 void set_script(int id, mixed *s) { script[id] = s; }
 int handle_of(int id) { return handles[id]; }
 void sethandle(int id, int h) { handles[id] = h; }
@@ -24,9 +28,10 @@ void cb4(int id, string arg) { fired(id, arg); }
 void cb5(int id, string arg) { fired(id, arg); }
 void cb6(int id, string arg) { fired(id, arg); }
 void cb7(int id, string arg) { fired(id, arg); }
+void cbs(int id, string arg) { fired(id, arg); }
 
 int co(int id, int d) {
-  int h = call_out("cb" + id, d, id, "a" + id);
+  int h = call_out(NM(id), d, id, "a" + id);
   "/co/t"->sethandle(id, h);
   return h;
 }
@@ -46,9 +51,11 @@ int cofp(int id, int d) {
   return h;
 }
 int rmh(int id) { return remove_call_out(H(id)); }
-int rmn(int id) { return remove_call_out("cb" + id); }
+int rmn(int id) { return remove_call_out(NM(id)); }
 int findh(int id) { return find_call_out(H(id)); }
-int findn(int id) { return find_call_out("cb" + id); }
+int findn(int id) { return find_call_out(NM(id)); }
+// time left by handle for ids 0..11 (the harness works out which entry a by-name removal took)
+int *probe() { int *r = allocate(12); int i; for (i = 0; i < 12; i++) r[i] = find_call_out(H(i)); return r; }
 int rmall() { return remove_call_out(); }
 void selfdestruct() { destruct(this_object()); }
 
@@ -58,7 +65,7 @@ void run(mixed *s) {
     case "co":    co(s[1], s[2]); LOG(({ "cb-co", s[1], s[2] })); break;
     case "cofp":  cofp(s[1], s[2]); LOG(({ "cb-cofp", s[1], s[2] })); break;
     case "rmh":   LOG(({ "cb-rmh", s[1], rmh(s[1]) })); break;
-    case "rmn":   LOG(({ "cb-rmn", s[1], rmn(s[1]) })); break;
+    case "rmn":   { int r = rmn(s[1]); LOG(({ "cb-rmn", s[1], r, probe() })); } break;
     case "findh": LOG(({ "cb-findh", s[1], findh(s[1]) })); break;
     case "findn": LOG(({ "cb-findn", s[1], findn(s[1]) })); break;
     case "err":   error("C10 callback error\n"); break;
